@@ -172,6 +172,27 @@ pub fn run(run: &Run) {
                 cases.push((emit::join(&t, " "), expect.clone()));
                 cases.push((emit::join(&t, ""), expect));
             }
+            // very wide images (more than a thousand terms in one input), the placeholder first / in the middle / last
+            for n in [300usize, 1100] {
+                for at in [0usize, n / 2, n] {
+                    let comps: Vec<R> = (0..n).map(|i| R::word(&format!("w{i}"))).collect();
+                    let mut t = vec![c.brackets.0.to_string(), emit::connecter(&f, tag).to_string()];
+                    for (i, k) in comps.iter().enumerate() {
+                        if i == at {
+                            t.push(c.separator.to_string());
+                            t.push(f.e.atom.prefix_placeholder.to_string());
+                        }
+                        t.push(c.separator.to_string());
+                        emit::term(&f, k, &mut t);
+                    }
+                    if at == n {
+                        t.push(c.separator.to_string());
+                        t.push(f.e.atom.prefix_placeholder.to_string());
+                    }
+                    t.push(c.brackets.1.to_string());
+                    cases.push((emit::join(&t, ""), Some(R::image(tag, at, comps))));
+                }
+            }
             // placeholder spellings: the prefix followed by identifier characters
             let ph = f.e.atom.prefix_placeholder;
             // ... incl. tails that end in a proper prefix of a copula made of name characters
